@@ -231,6 +231,9 @@ def box(v, shape):
         if not isinstance(v, PRec) or sorted(v.fields) != shape.names:
             raise Unsupported('box: record shape mismatch %r vs %s' % (v, shape))
         return shape.mk(**{k: box(v.fields[k], shape.fields[k]) for k in shape.names})
+    if isinstance(shape, TDict) and isinstance(v, PRec) and not v.fields:
+        from .builtins import empty_dict
+        return empty_dict(shape)
     if isinstance(shape, TList):
         if isinstance(v, PList):
             arr = empty_arr(shape.elem)
@@ -1832,7 +1835,14 @@ class Engine:
             return T.sslice(base, simp(l0 + lo), simp(l0 + hi))
         return T.sslice(s, lo, hi)
 
+    def _unwrap_opt_container(self, c, st, node):
+        if isinstance(c, ZV) and isinstance(c.shape, TOpt) and isinstance(c.shape.elem, (TDict, TList)):
+            self.safety(st, z3.Not(c.shape.is_none(c.term)), 'notnone', node)
+            return ZV(c.shape.elem, c.shape.val(c.term))
+        return c
+
     def setitem(self, c, k, v, st, node):
+        c = self._unwrap_opt_container(c, st, node)
         if isinstance(c, PRec):
             if isinstance(k, ZV) and k.pyval is not None:
                 f = dict(c.fields)
